@@ -538,7 +538,7 @@ func init() {
 						t := squash(p.fullText(fl.Body))
 						if strings.Contains(t, "for_,strm:=rangestrms{sc.dropResponse(strm)}") {
 							dropAt = d.Pos()
-							okBody = strings.Contains(t, "casestrm:=<-sc.handlerDone:strm.handlerRunning=falsesc.dropResponse(strm)") && strings.Contains(t, "default:return")
+							okBody = (strings.Contains(t, "casestrm:=<-sc.handlerDone:strm.handlerRunning=falsesc.dropResponse(strm)") || strings.Contains(t, "casestrm:=<-sc.handlerDone:strm.handlerRunning=falsesc.detachTimedOut(strm)sc.dropResponse(strm)")) && strings.Contains(t, "default:return")
 						}
 					}
 				}
@@ -561,13 +561,18 @@ func init() {
 					}
 					// every place the handler finds the loop gone lets go of a body: its own, or the ones left in the channel
 					nStop++
-					if !hasStmt(p, cc.Body, "_=ctx.Response.CloseBodyStream()") && !hasStmt(p, cc.Body, "sc.dropReported()") {
+					if !hasStmt(p, cc.Body, "_=ctx.Response.CloseBodyStream()") && !hasStmt(p, cc.Body, "closeLeftBody(ctx)") && !hasStmt(p, cc.Body, "sc.dropReported()") {
 						okH = false
 					}
 					return true
 				})
 				okH = okH && nStop > 0
 				r.check(okH, "a handler that finds the loop gone closes its response's body", p.pos(fd.Pos()), "case <-sc.handlerStop: ctx.Response.CloseBodyStream()", "a handler that finishes after the stream loop has gone drops its response with the body stream still open")
+				if cl := p.decl("closeLeftBody"); cl != nil {
+					r.fn("closeLeftBody")
+					t := stmtTexts(p, cl.Body.List)
+					r.check(len(t) == 1 && t[0] == "ifctx.LastTimeoutErrorResponse()==nil{_=ctx.Response.CloseBodyStream()}", "a left-over body is closed unless a timed-out handler still has the context", p.pos(cl.Pos()), "if ctx.LastTimeoutErrorResponse() == nil { ctx.Response.CloseBodyStream() }", "closeLeftBody no longer closes the body stream of a response nobody will send exactly when no timed-out handler can still be using the context")
+				}
 				// handlerDone is buffered, so once the loop is gone a report and the stop are both possible and select picks at random:
 				// the stop is looked at first, alone; and after a report that went in, again, emptying the channel if the loop stopped meanwhile
 				var sels []*ast.SelectStmt
